@@ -20,6 +20,7 @@
 typedef struct {
     char id[64], gen[16], out[512];
     int n, P, ps, relax, maxsuper, pert, order, dens, lowfill, kl, ku, vstyle, full, timeout, nrhs, last, fulldiag;
+    int refact, dyn, nzc, zc[64]; long lwork; char focus[32]; int focuspct, focusus;
     unsigned long seed; double u; int par[4096]; int npar; char patstr[4096];
 } job_t;
 
@@ -54,6 +55,16 @@ static void parse_job(char *line, job_t *J)
 	else if (!strcmp(tok, "seed")) J->seed = strtoul(v, 0, 10);
 	else if (!strcmp(tok, "u")) J->u = atof(v);
 	else if (!strcmp(tok, "pat")) strncpy(J->patstr, v, 4095);
+	else if (!strcmp(tok, "refact")) J->refact = atoi(v);
+	else if (!strcmp(tok, "dyn")) J->dyn = atoi(v);
+	else if (!strcmp(tok, "focus")) strncpy(J->focus, v, 31);
+	else if (!strcmp(tok, "focuspct")) J->focuspct = atoi(v);
+	else if (!strcmp(tok, "focusus")) J->focusus = atoi(v);
+	else if (!strcmp(tok, "lwork")) J->lwork = atol(v);
+	else if (!strcmp(tok, "zc")) {
+	    char *s2 = 0, *t; J->nzc = 0;
+	    for (t = strtok_r(v, ",", &s2); t && J->nzc < 64; t = strtok_r(0, ",", &s2)) J->zc[J->nzc++] = atoi(t);
+	}
 	else if (!strcmp(tok, "par")) {
 	    char *s2 = 0, *t; J->npar = 0;
 	    for (t = strtok_r(v, ",", &s2); t && J->npar < 4095; t = strtok_r(0, ",", &s2)) J->par[++J->npar] = atoi(t);
@@ -74,7 +85,7 @@ static int run_job(job_t *J)
     rng_t R; mat_t M; char *pat = 0; int_t n = J->n, i, j, info = 0;
     SuperMatrix A, AC, L, U, B; superlumt_options_t o; Gstat_t G;
     int_t *perm_c, *perm_r; FILE *f; unsigned long cksA[3];
-    int thr_before, thr_after;
+    int thr_before, thr_after; void *work = 0;
     R.s = J->seed * 7919ul + 17;
     if (!strcmp(J->gen, "forest")) pat = pat_forest(n, J->par, J->dens, J->lowfill, &R);
     else if (!strcmp(J->gen, "random")) pat = pat_random(n, J->dens, J->fulldiag, &R);
@@ -86,25 +97,39 @@ static int run_job(job_t *J)
 	for (i = 0; i < n; ++i) for (j = 0; j < n; ++j) pat[i + (long) j * n] = J->patstr[i * n + j] == '1';
     } else { fprintf(stderr, "unknown generator %s\n", J->gen); return 3; }
     mat_from_pattern(&M, n, pat, J->vstyle, &R);
+    for (i = 0; i < J->nzc; ++i) if (J->zc[i] >= 0 && J->zc[i] < n)
+	for (j = M.colptr[J->zc[i]]; j < M.colptr[J->zc[i] + 1]; ++j) M.val[j] = mk_scalar(0.0, 0.0);
     G(Create_CompCol_Matrix)(&A, n, n, M.nnz, M.val, M.rowind, M.colptr, SLU_NC, SLU_DT, SLU_GE);
     cksA[0] = fnv(M.val, sizeof(SCALAR) * M.nnz); cksA[1] = fnv(M.rowind, sizeof(int_t) * M.nnz); cksA[2] = fnv(M.colptr, sizeof(int_t) * (n + 1));
     vrt_ienv[1] = J->ps; vrt_ienv[2] = J->relax; vrt_ienv[3] = J->maxsuper;
     perm_c = intMalloc(n); perm_r = intMalloc(n);
     if (J->order < 0) for (i = 0; i < n; ++i) perm_c[i] = i; else get_perm_c(J->order, &A, perm_c);
     StatAlloc(n, J->P, J->ps, J->relax, &G); StatInit(n, J->P, &G);
-    PG(gstrf_init)(J->P, DOFACT, NOTRANS, NO, J->ps, J->relax, J->u, NO, 0.0, perm_c, perm_r, NULL, 0, &A, &AC, &o, &G);
+    if (J->dyn) setenv("SuperLU_DYNAMIC_SNODE_STORE", "1", 1);
+    if (J->lwork > 0) work = malloc(J->lwork);
+    PG(gstrf_init)(J->P, DOFACT, NOTRANS, NO, J->ps, J->relax, J->u, NO, 0.0, perm_c, perm_r, work, J->lwork, &A, &AC, &o, &G);
+    if (J->refact) {   /* first factorization unrecorded, then new values on the same pattern and refactor */
+	PG(gstrf)(&o, &AC, perm_r, &L, &U, &G, &info);
+	if (info != 0) { fprintf(stderr, "first factorization info %ld\n", (long) info); }
+	for (i = 0; i < M.nnz; ++i) { lc v = to_lc(M.val[i]); M.val[i] = from_lc(v * (lc) (1.0L + 0.25L * (long double) ((i * 7) % 5))); }
+	for (i = 0; i < J->nzc; ++i) if (J->zc[i] >= 0 && J->zc[i] < n)
+	    for (j = M.colptr[J->zc[i]]; j < M.colptr[J->zc[i] + 1]; ++j) M.val[j] = mk_scalar(0.0, 0.0);
+	cksA[0] = fnv(M.val, sizeof(SCALAR) * M.nnz);
+	Destroy_CompCol_Permuted(&AC);
+	StatInit(n, J->P, &G);
+	PG(gstrf_init)(J->P, DOFACT, NOTRANS, YES, J->ps, J->relax, J->u, J->refact == 2 ? YES : NO, 0.0, perm_c, perm_r, work, J->lwork, &A, &AC, &o, &G);
+    }
     thr_before = vrt_thread_count();
     vrt_perturb(J->pert, (unsigned) J->seed);
+    if (J->focus[0]) vrt_perturb_focus(J->focus, J->focuspct ? J->focuspct : 50, J->focusus ? J->focusus : 300);
     vrt_log_enable(1);
     PG(gstrf)(&o, &AC, perm_r, &L, &U, &G, &info);
     vrt_log_enable(0); vrt_perturb(0, 0);
     thr_after = vrt_thread_count();
 
     f = fopen(J->out, "w"); if (!f) { perror(J->out); return 3; }
-    fprintf(f, "{\"e\":\"Config\",\"id\":\"%s\",\"prec\":\"%s\",\"n\":%ld,\"P\":%d,\"ps\":%d,\"relax\":%d,\"maxsuper\":%d,\"info\":%ld,\"overflow\":%d,\"idle\":%ld",
-	    J->id, PLS, (long) n, J->P, J->ps, J->relax, J->maxsuper, (long) info, vrt_log_overflowed(), vrt_idle_polls());
-    put_list(f, "etree", o.etree, n, 1);
-    {   int_t *sb = intMalloc(n + 1), ns = 0; for (i = 0; i < n; ++i) if (o.part_super_h[i]) sb[ns++] = i; put_list(f, "sbnd", sb, ns, 1); SUPERLU_FREE(sb); }
+    fprintf(f, "{\"e\":\"Meta\",\"id\":\"%s\",\"prec\":\"%s\",\"n\":%ld,\"P\":%d,\"info\":%ld,\"overflow\":%d,\"idle\":%ld,\"lwork\":%ld,\"refact\":%d",
+	    J->id, PLS, (long) n, J->P, (long) info, vrt_log_overflowed(), vrt_idle_polls(), J->lwork, J->refact);
     put_list(f, "colcnt", o.colcnt_h, n, 0);
     fprintf(f, "}\n");
     vrt_log_dump(f);
@@ -115,6 +140,12 @@ static int run_job(job_t *J)
     put_list(f, "permr", perm_r, n, 1); put_list(f, "permc", perm_c, n, 1);
     if (info == 0 || (info > 0 && info <= n)) {
 	SCPformat *Ls = (SCPformat *) L.Store; NCPformat *Us = (NCPformat *) U.Store;
+	if (J->lwork > 0) {
+	    char *w0 = (char *) work, *w1 = w0 + J->lwork;
+	    int inside = (char *) Ls->nzval >= w0 && (char *) Ls->nzval < w1 && (char *) Ls->rowind >= w0 && (char *) Ls->rowind < w1
+		&& (char *) Us->nzval >= w0 && (char *) Us->nzval < w1 && (char *) Us->rowind >= w0 && (char *) Us->rowind < w1;
+	    fprintf(f, ",\"inside\":%d", inside);
+	}
 	fprintf(f, ",\"nsuper\":%ld,\"nnzL\":%ld,\"nnzU\":%ld", (long) Ls->nsuper + 1, (long) Ls->nnz, (long) Us->nnz);
 	if (J->full && n <= 80) {
 	    int_t maxl = 0, maxu = 0;
